@@ -2,11 +2,22 @@
 import common
 from props.parts import datapath
 
-THEOREMS = ["C01_send_split_preserves", "C01_send_bytes_preserved", "C01_datapath_no_assert", "C01_wire_prefix", "C01_wire_roundtrip",
-            "C01_wire_interface_inhabited", "C01_delivery_exactly_once", "C01_delivery_in_order", "C01_clean_end",
-            "C01_trailers_clean_end", "C01_error_never_clean", "C01_reset_never_clean",
-            "C01_nonvacuous_interleaved_split", "C01_nonvacuous_partial_write_reclaim", "C01_nonvacuous_no_overtaking",
-            "C01_nonvacuous_reset_mid_frame", "C01_nonvacuous_recv_in_order", "C01_nonvacuous_recv_reset_prefix"]
+T_MAIN = ["C01_send_split_preserves", "C01_send_bytes_preserved", "C01_datapath_no_assert", "C01_wire_prefix", "C01_wire_roundtrip",
+          "C01_wire_interface_inhabited", "C01_delivery_exactly_once", "C01_delivery_in_order", "C01_clean_end",
+          "C01_trailers_clean_end", "C01_error_never_clean", "C01_reset_never_clean",
+          "C01_nonvacuous_interleaved_split", "C01_nonvacuous_partial_write_reclaim", "C01_nonvacuous_no_overtaking",
+          "C01_nonvacuous_reset_mid_frame", "C01_nonvacuous_recv_in_order", "C01_nonvacuous_recv_reset_prefix"]
+# the concrete wire codec (work package wp-compose): C12 for frame sequences, C10 with C11, the instance of the wire interface
+T_WIRE = ["C01_wire_interface_generalised", "C01_wire_prefix_on", "C01_wire_h2_sync", "C01_wire_roundtrip_h2",
+          "C01_wire_roundtrip_h2_init", "C01_wire_octets_are_writer_input", "C01_wire_side_conditions_decidable", "C01_wire_roundtrip_h2_nonvacuous"]
+T_C12_SEQ = ["C12_stream_compositional", "C12_seq_roundtrip_stream", "C12_seq_stream_prefix", "C12_pump_is_iterated_poll",
+             "C12_seq_poll_logical", "C12_seq_reader_prefix", "C12_seq_nonvacuous"]
+T_C10_SYNC = ["C10_sync_encoder_octets", "C10_sync_init", "C10_sync_block", "C10_sync_outside_known_classes",
+              "C10_sync_history", "C10_sync_nonvacuous"]
+AUDIT = [("H2V.Properties.C01", T_MAIN), ("H2V.Properties.C01_wire", T_WIRE), ("H2V.Properties.C12_seq", T_C12_SEQ),
+         ("H2V.Properties.C10_sync", T_C10_SYNC)]
+VO_TARGETS = ["Properties/C01.vo", "Properties/C12_seq.vo", "Properties/C10_sync.vo", "Properties/C01_wire.vo"]
+THEOREMS = T_MAIN + T_WIRE + T_C12_SEQ + T_C10_SYNC
 PARTIAL = [
     "proved, for ALL label sequences (submissions, scheduler choices, max_frame_len, stream capacity / window at every pop, flush "
     "completions, resets) on the content-level model Model/DataPath.v of prioritize.rs (queue_frame, send_data, the DATA split of "
@@ -16,13 +27,28 @@ PARTIAL = [
     "proved on the model of recv.rs' event queue: every event leaves pending_recv exactly once in arrival order (delivered, or discarded "
     "only on the application's request); poll_data/poll_trailers report a clean end only on a drained queue whose stream state says "
     "END_STREAM was received (state function ensure_recv_open of Model/StreamState.v, theorems C07/C17), an error state never yields a clean end;",
-    "C01_wire_roundtrip is stated over an ABSTRACT synchronised frame codec (argument `codec_sync c R`: decode after encode is the "
-    "identity whatever follows, a strict prefix of an encoding is 'need more', contexts stay related) - the precise interface needed from "
-    "C12 (single-frame round trip C12_roundtrip_reader, chunking independence C12_read_chunking, write prefix C12_write_prefix) and C10/C11 "
-    "(HPACK contexts); the instantiation with Model/FrameCodec + HpackEnc/HpackDec is NOT done (only a toy instance shows the interface is "
-    "inhabited); on the implementation this link is exercised by the two-endpoint oracle;",
+    "C01_wire_roundtrip is stated over an ABSTRACT synchronised frame codec (argument `codec_sync c R`); the CONCRETE instance is now proved "
+    "(Properties/C01_wire.v): h2_wcodec = HPACK encoder model + frame encoder model (HEADERS/PUSH_PROMISE split into CONTINUATION, DATA, "
+    "RST_STREAM) on the sending side, one FramedRead::poll_next of the reader model + HPACK decoder model (Huffman decoder model inside) on "
+    "the receiving side; C01_wire_h2_sync discharges the interface for it (decode after encode whatever octets follow, a strict prefix is "
+    "'need more', HPACK tables stay equal and within limits) and C01_wire_roundtrip_h2 is C01_wire_roundtrip for it, for ALL runs, ALL "
+    "prefixes of the octet stream - built on C12 for frame SEQUENCES (Properties/C12_seq.v: reference stream decoder compositional, reader = "
+    "iterated poll_next, any chunking, prefix form) and C10 composed with C11 (Properties/C10_sync.v: encoder model -> decoder model for "
+    "every history and every fragmentation, tables equal, no known-class hypothesis). `codec_sync` itself cannot hold literally for any "
+    "real codec (it quantifies over every frame value), so the instance is stated through the relative interface codec_sync_on (proved to "
+    "generalise codec_sync) under EXACTLY these side conditions on the frames handed to the codec (sframe_ok, decidable: all_okb): stream "
+    "id below 2^31 and not 0; DATA payload of octets and at most the sender's max_frame_size; 32-bit reset code; promised id below 2^31; "
+    "header names/values octet strings shorter than 2^24 (C10) and accepted by the validation of h2's decoder, Header::new (C11); the "
+    "HPACK block needs no more CONTINUATION frames than the receiver's flood limit calc_max_continuation_frames (C12); parameters 42 <= "
+    "sender max_frame_size <= 2^24-1 and <= receiver max_frame_size. The result is modulo norm_wire: the head/interim/trailers tag of a "
+    "HEADERS frame is not on the wire (the receiving stream's state decides it). Still NOT composed: the reader instantiated with the HPACK "
+    "decoder as its hpack_ops (HeaderBlock::load's max_header_list_size accounting; here the block is reassembled raw and then decoded, "
+    "with C11's chunking theorem covering every fragmentation), SETTINGS-driven table-size changes inside a C01 run (covered for HPACK "
+    "alone by C10_sync_history), and the side conditions are hypotheses on the emitted frames, not derived from the labels; "
+    "C01_wire_octets_are_writer_input identifies the octet stream with the input of C12's frame writer (C12_write_prefix applies); on the "
+    "implementation the link is exercised by the two-endpoint oracle;",
     "NOT proved, explored by the oracles: the stream state machine's classification of HEADERS frames (head / interim / trailers) end to end, "
-    "scheduling fairness / progress (stalls are not C01), header-field content through HPACK (model frames carry abstract field lists);",
+    "scheduling fairness / progress (stalls are not C01);",
     "the receive-side model (pending_recv queue, poll_*) has an executable checker (check_recvpath) but no hook projection yet: it is tied "
     "to the code by the two-endpoint oracle only (delivery order, exactly-once, clean end / error at the API), not by a lock-step;",
     "tie to the code: lock-step replay of hook events through Model/DataPath.v inside Coq (bodies regenerated from stream/offset/length, "
